@@ -516,7 +516,64 @@ def extra_coverage(tier):
                         "libfuzzer_last_status": [r["libfuzzer"] for r in rows][:4]}}
 
 
+# ---- several readers at once ---------------------------------------------------------------------------------------
+
+READER_OPS = [
+    {"op": "get", "key": "t"}, {"op": "get_many", "keys": ["t", "n", "zz"]}, {"op": "gets", "key": "n"}, {"op": "set", "key": "k1", "value": b"v", "noreply": False},
+    {"op": "add", "key": "t", "value": b"x", "noreply": False}, {"op": "incr", "key": "n2", "delta": 3}, {"op": "delete", "key": "gone", "noreply": False},
+    {"op": "touch", "key": "t", "expire": 9, "noreply": False}, {"op": "set_many", "values": {"m1": b"1", "m2": b"2"}, "noreply": False}, {"op": "version"},
+]
+
+
+def readers_cases(tier, seed):
+    for kind in ("pooled", "hash-pooled"):
+        for pieces in ([1], [2], [3], [5, 1], [7]):
+            for a, b in itertools.combinations(range(len(READER_OPS)), 2):
+                if kind == "hash-pooled" and "version" in (READER_OPS[a]["op"], READER_OPS[b]["op"]):
+                    continue
+                if tier == "quick" and (a + b + len(pieces) + pieces[0]) % 3 and kind == "hash-pooled":
+                    continue
+                yield {"kind": kind, "pieces": pieces, "ops": [a, b], "first": (a + b) % 2}
+            for tri in ((0, 3, 4), (1, 2, 8), (0, 1, 2)):
+                if kind == "pooled" or "version" not in [READER_OPS[i]["op"] for i in tri]:
+                    yield {"kind": kind, "pieces": pieces, "ops": list(tri), "first": pieces[0] % 3}
+
+
+def check_readers(case):
+    """two or three users of one pooled client, each on its own connection, their replies arriving cut into small pieces and
+    the users taking turns at every socket call: each call returns what it returns when it runs alone with its reply in one
+    piece - how one reply is segmented, and what another connection is in the middle of, changes nothing"""
+    from vlib import interleave, faultlab
+    from vlib.harness import Env, virtual_time
+    recs = [READER_OPS[i] for i in case["ops"]]
+
+    def fresh(pieces):
+        env = Env()
+        faultlab.preload(env.server, b"")
+        env.server.store[b"n2"] = Item(b"40", 0, 0, env.server._next_cas(), env.clock.now)
+        if pieces:
+            env.net.schedule = list(pieces)
+        return env
+    alone = []
+    for r in recs:
+        env = fresh(None)
+        with virtual_time(env.clock):
+            c = env.client(case["kind"], max_pool_size=len(recs), default_noreply=False)
+            alone.append(env.call(ops.invoke, c, r))
+    env = fresh(case["pieces"])
+    with virtual_time(env.clock):
+        c = env.client(case["kind"], max_pool_size=len(recs), default_noreply=False)
+        got, sc = interleave.run(env.net, [lambda r=r: ops.invoke(c, r) for r in recs], first=case.get("first", 0))
+        c.close()
+    for r, a, g in zip(recs, alone, got):
+        if _norm(a) != _norm(g):
+            raise Violation(["several-readers", r["op"]], "%r gave %r while %r ran on the same %s client (replies in pieces of %r, turns taken at every socket call); alone and unsplit it gives %r"
+                            % (r, _short(g), [x for x in recs if x is not r], case["kind"], case["pieces"], _short(a)))
+    return sc.switches > 2, ["several-readers", case["kind"], "switches>=10" if sc.switches >= 10 else "switches<10"]
+
+
 PARTS = [
+    Part("several-readers", "enum", check_readers, cases=readers_cases, exhaustive=True),
     Part("all-cut-subsets", "enum", check, cases=subsets_cases, exhaustive=True),
     Part("k-cuts", "enum", check, cases=kcut_cases, exhaustive=True),
     Part("long-streams", "enum", check, cases=long_cases),
